@@ -61,9 +61,12 @@ def topology_record(rid, t):
             continue
         suffixes.append([list(topo.attached(t, e)), topo.parse_name("x" + get_boost_chain_suffix(t, e))[1]])
         opposite.append([list(topo.attached(t, e)), int(is_opposite_helicity_state(t, e))])
+    from ampform.kinematics.lorentz import compute_boost_chain
+
+    boost_chains = [[i, topo.project_boost_chain(compute_boost_chain(t, p, i))] for i in sorted(t.outgoing_edge_ids)]
     ident = get_topology_identifier(t)
     topo_id = [[int(c) for c in g] for g in ident.split(",")] if ident else []
-    return {"kind": "topology", "id": rid, "tree": [list(s) for s in topo.tree_of(t)], "suffixes": suffixes, "opposite": opposite, "topo_id": topo_id, **proj}, {**exprs, **masses}
+    return {"kind": "topology", "id": rid, "tree": [list(s) for s in topo.tree_of(t)], "suffixes": suffixes, "opposite": opposite, "topo_id": topo_id, "boost_chains": boost_chains, **proj}, {**exprs, **masses}
 
 
 def raw_exprs(t):
